@@ -540,7 +540,9 @@ func ruleHandOffNotifies(c *Check, p *Prog, notifier *ssa.Function, rule string)
 			n++
 			continue
 		}
-		accepted := g.Select(ErrNilEdge(func(t *Term) bool { return t.IsCall(seqM("SubmitBatchTxs")) || (t.Op == "invoke" && strings.HasSuffix(t.Name, "SubmitBatchTxs")) }))
+		accepted := g.Select(ErrNilEdge(func(t *Term) bool {
+			return t.IsCall(seqM("SubmitBatchTxs")) || (t.Op == "invoke" && strings.HasSuffix(t.Name, "SubmitBatchTxs"))
+		}))
 		if len(accepted) == 0 {
 			c.Unk(rule, inst, fnName(fn), "", "anchor lost: no branch on the error of SubmitBatchTxs")
 			continue
